@@ -63,7 +63,8 @@
 (*     max-age is written), sub-second part of Expires                     *)
 (*   - cookie keys/values outside RFC 6265 cookie-octets (SP, DQUOTE, ';', *)
 (*     ',', backslash, CTL, non-ASCII), '=' in or emptiness of a cookie    *)
-(*     key (CookiePre): run and recorded, not judged                       *)
+(*     key, a value wrapped in a pair of double quotes (CookiePre): run    *)
+(*     and recorded, not judged (a panic is rejected all the same)         *)
 (*   - whether net/url accepts what hertz encodes (L3 is one-directional)  *)
 (***************************************************************************)
 EXTENDS Integers, Sequences, FiniteSets, TLC
@@ -77,8 +78,8 @@ CONSTANTS Nil,            \* the empty byte string
 (* cookie-octets only ('=' last: legal in values, not in keys).            *)
 Tok      == <<"a", "%", "+", "&", "=", ";", "4", "1", "G", " ", "\\x00", "\\xC3">>
 TokByte  == <<97, 37, 43, 38, 61, 59, 52, 49, 71, 32, 0, 195>>
-CTok     == <<"a", "%", "+", "&", "4", "1", "G", "=">>
-CTokByte == <<97, 37, 43, 38, 52, 49, 71, 61>>
+CTok     == <<"a", "%", "+", "&", "4", "1", "G", "=", "\"">>
+CTokByte == <<97, 37, 43, 38, 52, 49, 71, 61, 34>>
 (* "pct": escapes of escapes and of URI syntax (%25, %2F, %2E, %2541, "/../", "//", "/./", '?', '#'): what *)
 (* the setters store after decoding can itself look like an escape, a dot segment or a delimiter.          *)
 PTok     == <<"%", "2", "5", "F", "E", "4", "1", "/", ".", "a", "?", "#">>
@@ -102,10 +103,11 @@ ByteTok  == <<
              "\\xE0", "\\xE1", "\\xE2", "\\xE3", "\\xE4", "\\xE5", "\\xE6", "\\xE7", "\\xE8", "\\xE9", "\\xEA", "\\xEB", "\\xEC", "\\xED", "\\xEE", "\\xEF",
              "\\xF0", "\\xF1", "\\xF2", "\\xF3", "\\xF4", "\\xF5", "\\xF6", "\\xF7", "\\xF8", "\\xF9", "\\xFA", "\\xFB", "\\xFC", "\\xFD", "\\xFE", "\\xFF" >>
 CEqTok   == 8             \* index of '=' in CTok
+CQuoteTok == 9            \* index of '"' in CTok (lone / unbalanced quotes survive; a value wrapped in a pair of quotes is unquoted by design)
 
 Modes == {"query", "args", "uri", "cookie"}
 Tabs  == {"gen", "cookie", "byte", "pct"}
-NTab(tab)   == CASE tab = "gen" -> 12 [] tab = "cookie" -> 8 [] tab = "byte" -> 256 [] tab = "pct" -> 12
+NTab(tab)   == CASE tab = "gen" -> 12 [] tab = "cookie" -> 9 [] tab = "byte" -> 256 [] tab = "pct" -> 12
 TabStr(tab) == CASE tab = "gen" -> Tok [] tab = "cookie" -> CTok [] tab = "byte" -> ByteTok [] tab = "pct" -> PTok
 \* tokens that denote an ASCII control byte (< 0x20 or 0x7F)
 IsCtlTok(tab, t) == CASE tab = "gen" -> t = 11 [] tab = "cookie" -> FALSE [] tab = "byte" -> (t <= 32 \/ t = 128) [] tab = "pct" -> FALSE
@@ -119,23 +121,24 @@ NilStr == ""
 NilSeq == << >>
 
 (* Variant tables. *)
-Hosts    == <<"Example.COM", "example.com:8080", "[FE80::1]", "[::1]:443">>
-Schemes  == <<"", "HTTPS", "x-A.b+1">>
+Hosts    == <<"Example.COM", "example.com:8080", "[FE80::1]", "[::1]:443", "">>   \* "": URI without host (http:///p)
+Schemes  == <<"", "HTTPS", "aZ-0.z+9">>      \* default | upper case | every boundary character of the scheme grammar
+ParseHost == "Other.Host:81"                 \* Host argument of URI.Parse when the full URI is parsed like an absolute-form target
 Expiries == <<"none", "delete", "future">>   \* zero time | CookieExpireDelete | 2033-05-18T03:33:20.999+01:00
 MaxAges  == <<0, 3600>>
-Domains  == <<"", "Example.com">>
+Domains  == <<"", "Example.com", "d">>
 CPaths   == <<"<unset>", "", "/", "a/%41">>  \* <unset>: SetPath is not called
-AllLits  == Hosts \o Schemes \o Domains \o CPaths \o <<"http">>
+AllLits  == Hosts \o Schemes \o Domains \o CPaths \o <<"http", ParseHost>>
 LitStr(s) == s
 LitSeq(s) == IF s = "" THEN << >> ELSE <<1000 + (CHOOSE i \in DOMAIN AllLits : AllLits[i] = s)>>   \* opaque pseudo-byte
 
-NV(mode) == CASE mode = "uri" -> 36 [] mode = "cookie" -> 1920 [] OTHER -> 1
+NV(mode) == CASE mode = "uri" -> 45 [] mode = "cookie" -> 2880 [] mode = "args" -> 4 [] OTHER -> 1
 
-UriVar(v) == LET x == v - 1 IN [host |-> Hosts[(x % 4) + 1], scheme |-> Schemes[((x \div 4) % 3) + 1], qmode |-> x \div 12]
+UriVar(v) == LET x == v - 1 IN [host |-> Hosts[(x % 5) + 1], scheme |-> Schemes[((x \div 5) % 3) + 1], qmode |-> x \div 15]
 CookieVar(v) == LET x == v - 1 IN
     [httpOnly |-> x % 2 = 1, secure |-> (x \div 2) % 2 = 1, partitioned |-> (x \div 4) % 2 = 1,
      sameSite |-> (x \div 8) % 5, exp |-> Expiries[((x \div 40) % 3) + 1], maxAge |-> MaxAges[((x \div 120) % 2) + 1],
-     domain |-> Domains[((x \div 240) % 2) + 1], path |-> CPaths[((x \div 480) % 4) + 1]]
+     domain |-> Domains[((x \div 240) % 3) + 1], path |-> CPaths[((x \div 720) % 4) + 1]]
 
 ----------------------------------------------------------------------------
 (* Inputs, blocks, the enumeration.                                        *)
@@ -152,6 +155,12 @@ Binom(n, k) == IF k = 0 THEN 1 ELSE (Binom(n, k - 1) * (n - k + 1)) \div k
 RECURSIVE HashSeq(_, _)
 HashSeq(h, s) == IF s = << >> THEN h ELSE HashSeq((h * 31 + Head(s) + 1) % 65521, Tail(s))
 VarOf(mode, w, c) == (HashSeq(HashSeq(7, w), c) % NV(mode)) + 1
+\* two more bits derived from the whole input (so that they cost no volume, and every (variant, bits) pair occurs):
+\*   api 0: the string setters                      api 1: the []byte setters (Set*Bytes) where they exist
+\*   pm  0: URI.Parse(nil, String(u))               pm  1: URI.Parse(ParseHost, String(u)) (absolute-form target + Host)
+Aux(in) == HashSeq(HashSeq(HashSeq(11, in.w), in.c), <<in.v>>)
+ApiOf(in) == Aux(in) % 2
+PmOf(in)  == (Aux(in) \div 2) % 2
 
 Cut(in, j)   == IF j = 0 THEN 0 ELSE IF j > Len(in.c) THEN Len(in.w) ELSE in.c[j]
 Field(in, j) == SubSeq(in.w, Cut(in, j - 1) + 1, Cut(in, j))
@@ -236,17 +245,25 @@ LawCookie(o) == /\ o.ok
                 /\ o.parsed.partitioned = o.rec.partitioned /\ o.parsed.sameSite = o.rec.sameSite
                 /\ o.parsed.maxAge = o.rec.maxAge
                 /\ o.rec.maxAge = 0 => (o.parsed.expSet = o.rec.expSet /\ o.parsed.exp = o.rec.exp)
-CookiePre(in) == Field(in, 1) # << >> /\ \A i \in DOMAIN Field(in, 1) : Field(in, 1)[i] # CEqTok
+CookiePre(in) == /\ Field(in, 1) # << >> /\ \A i \in DOMAIN Field(in, 1) : Field(in, 1)[i] # CEqTok
+                 /\ LET f == Field(in, 2) IN ~(Len(f) >= 2 /\ f[1] = CQuoteTok /\ f[Len(f)] = CQuoteTok)
 
 ----------------------------------------------------------------------------
 (* Binding of an observation to the input + the laws, per mode.            *)
 R(b, in, j) == Render(b.tab, Field(in, j))
 
 \* mode "query" (nc = 0): s = Render(w) is parsed raw.            L3, and L2 for A = the parsed list
-\* mode "args"  (nc odd): A = <<(F1,F2),(F3,F4),...>> through Add. L2, L3 for s = Encode(A), L2 for A = the parsed list
+\* mode "args"  (nc odd): pairs (F1,F2),(F3,F4),... are put into a (reused) Args object in one of four ways (variant v):
+\*    1  Add(k, v) for each pair                 2  Set(k, v) for each pair
+\*    3  ParseBytes("k1&k2&..") -- the keys without values -- first, then Set(k, v) for each pair
+\*    4  the same pre-parse, then Add(k, v) for each pair
+\* A = `list` = what the object then holds (VisitAll).  L2, L3 for s = Encode(A), L2 for A = the parsed list.
+\* `pairs` echoes what was passed and is bound to the enumeration; for variant 1 the object must hold exactly the pairs;
+\* for the others what Set / the pre-parse leave in the object is not modelled (replace-first semantics of Set).
+Pairs(b, in) == [i \in 1 .. (b.nc + 1) \div 2 |-> <<R(b, in, 2 * i - 1), R(b, in, 2 * i)>>]
 AcceptArgs(b, in, o) ==
-    /\ IF b.mode = "query" THEN o.list = << >> /\ o.enc = R(b, in, 1)
-       ELSE o.list = [i \in 1 .. (b.nc + 1) \div 2 |-> <<R(b, in, 2 * i - 1), R(b, in, 2 * i)>>]
+    /\ IF b.mode = "query" THEN o.pairs = << >> /\ o.list = << >> /\ o.enc = R(b, in, 1) /\ o.api = 0
+       ELSE o.pairs = Pairs(b, in) /\ o.api = in.v /\ (in.v = 1 => o.list = o.pairs)
     /\ b.mode = "args" => LawArgs(o.list, o.parsed)
     /\ LawNetUrl(o.parsed, o.neturl)
     /\ LawArgs(o.parsed, o.reparsed)
@@ -255,7 +272,8 @@ AcceptArgs(b, in, o) ==
 AcceptUri(b, in, o) ==
     LET var == UriVar(in.v) IN
     /\ o.set = [scheme |-> Lit(var.scheme), host |-> Lit(var.host), path |-> R(b, in, 1), key |-> R(b, in, 2),
-                value |-> R(b, in, 3), frag |-> R(b, in, 4), qmode |-> var.qmode]
+                value |-> R(b, in, 3), frag |-> R(b, in, 4), qmode |-> var.qmode, api |-> ApiOf(in),
+                phost |-> IF PmOf(in) = 1 THEN Lit(ParseHost) ELSE Nil]
     /\ o.fragCtl = (\E i \in DOMAIN Field(in, 4) : IsCtlTok(b.tab, Field(in, 4)[i]))
     /\ LawUri(o, var.qmode)
 
@@ -264,7 +282,7 @@ AcceptCookie(b, in, o) ==
     LET var == CookieVar(in.v) IN
     /\ o.set = [key |-> R(b, in, 1), value |-> R(b, in, 2), httpOnly |-> var.httpOnly, secure |-> var.secure,
                 partitioned |-> var.partitioned, sameSite |-> var.sameSite, exp |-> var.exp, maxAge |-> var.maxAge,
-                domain |-> Lit(var.domain), path |-> Lit(var.path)]
+                domain |-> Lit(var.domain), path |-> Lit(var.path), api |-> ApiOf(in)]
     /\ CookiePre(in) => LawCookie(o)
 
 Accept(b, in, o) == /\ o.ev = EvOf(b.mode)
@@ -315,12 +333,11 @@ RefNetUrl(s) == LET ps == SelectSeq(Split(s, 38), LAMBDA x : x # << >>)
                                 vs |-> LET Q == SelectSeq(P, LAMBDA e : e[1] = kseq[i]) IN [j \in DOMAIN Q |-> Q[j][2]]]]]
 
 RefArgsObs(b, in) ==
-    LET list == IF b.mode = "query" THEN << >>
-                ELSE [i \in 1 .. (b.nc + 1) \div 2 |-> <<R(b, in, 2 * i - 1), R(b, in, 2 * i)>>]
+    LET list == IF b.mode = "query" THEN << >> ELSE Pairs(b, in)     \* the reference's Set behaves like Add
         enc == IF b.mode = "query" THEN R(b, in, 1) ELSE RefEncode(list)
         parsed == RefParse(enc)
         reenc == RefEncode(parsed)
-    IN  [ev |-> "Args", list |-> list, enc |-> enc, parsed |-> parsed, neturl |-> RefNetUrl(enc),
+    IN  [ev |-> "Args", api |-> IF b.mode = "query" THEN 0 ELSE in.v, pairs |-> list, list |-> list, enc |-> enc, parsed |-> parsed, neturl |-> RefNetUrl(enc),
          reenc |-> reenc, reparsed |-> RefParse(reenc)]
 
 \* reference URI: everything in path, query arguments and fragment is escaped, so '/', '?', '#' only occur as delimiters
@@ -343,7 +360,8 @@ RefUriParse(s) ==
 RefUriObs(b, in) ==
     LET var == UriVar(in.v)
         set == [scheme |-> Lit(var.scheme), host |-> Lit(var.host), path |-> R(b, in, 1), key |-> R(b, in, 2),
-                value |-> R(b, in, 3), frag |-> R(b, in, 4), qmode |-> var.qmode]
+                value |-> R(b, in, 3), frag |-> R(b, in, 4), qmode |-> var.qmode, api |-> ApiOf(in),
+                phost |-> IF PmOf(in) = 1 THEN Lit(ParseHost) ELSE Nil]
         qs  == IF var.qmode = 2 THEN << >> ELSE RefEncode(<<<<set.key, set.value>>>>)
         parts == [scheme |-> IF set.scheme = Nil THEN Lit("http") ELSE set.scheme, host |-> set.host,
                   path |-> <<47>> \o set.path, qs |-> qs, query |-> RefParse(qs), frag |-> set.frag]
@@ -364,7 +382,7 @@ RefCookieObs(b, in) ==
     IN  [ev |-> "Cookie", ok |-> TRUE, str |-> Nil, rec |-> rec, parsed |-> rec,
          set |-> [key |-> R(b, in, 1), value |-> R(b, in, 2), httpOnly |-> var.httpOnly, secure |-> var.secure,
                   partitioned |-> var.partitioned, sameSite |-> var.sameSite, exp |-> var.exp, maxAge |-> var.maxAge,
-                  domain |-> Lit(var.domain), path |-> Lit(var.path)]]
+                  domain |-> Lit(var.domain), path |-> Lit(var.path), api |-> ApiOf(in)]]
 
 RefObs(b, in) == CASE b.mode = "uri" -> RefUriObs(b, in) [] b.mode = "cookie" -> RefCookieObs(b, in) [] OTHER -> RefArgsObs(b, in)
 
